@@ -43,6 +43,9 @@ K = {
  "v IndicesToValues":      ("pkg/slice/slice.go",          "GoCode_Cols_proofs.v"),
  "v CopyValuesFromIndices":("pkg/slice/slice.go",          "GoCode_Cols_proofs.v"),
  "v removeCols":           ("pkg/sorter/sorter.go",        "GoCode_Cols_proofs.v"),
+ "iv StrList.LessThan":    ("pkg/objects/str_list.go",     "GoCode_StrListSeek_proofs.v"),
+ "vi BlockIndex.Get":      ("pkg/objects/block_index.go",  "GoCode_BlockIndexGet_proofs.v"),
+ "vii addToFanoutTable":   ("pkg/index/fanout.go",         "GoCode_Fanout_proofs.v"),
 }
 # (kernel, kind, description, old text, new text)   old must occur exactly once inside the file
 M = [
@@ -145,6 +148,28 @@ M = [
  ("v removeCols", "break", "looks up i+1", "\t\tif _, ok := removedCols[i]; ok {\n\t\t\tcontinue\n\t\t}\n\t\tstrs = append(strs, s)", "\t\tif _, ok := removedCols[i+1]; ok {\n\t\t\tcontinue\n\t\t}\n\t\tstrs = append(strs, s)"),
  ("v removeCols", "keep", "rename variables", "\tfor i, s := range row {\n\t\tif _, ok := removedCols[i]; ok {\n\t\t\tcontinue\n\t\t}\n\t\tstrs = append(strs, s)\n\t}\n\treturn strs", "\tfor col, cell := range row {\n\t\tif _, drop := removedCols[col]; drop {\n\t\t\tcontinue\n\t\t}\n\t\tstrs = append(strs, cell)\n\t}\n\treturn strs"),
  ("v removeCols", "keep", "if !ok { append } instead of continue", "\t\tif _, ok := removedCols[i]; ok {\n\t\t\tcontinue\n\t\t}\n\t\tstrs = append(strs, s)\n", "\t\tif _, ok := removedCols[i]; !ok {\n\t\t\tstrs = append(strs, s)\n\t\t}\n"),
+ ("iv StrList.LessThan", "break", "seekColumnOffset: length prefix not skipped", "\t\tn = int(binary.BigEndian.Uint16(b[off : off+2]))\n\t\toff += 2\n", "\t\tn = int(binary.BigEndian.Uint16(b[off : off+2]))\n\t\toff += 1\n"),
+ ("iv StrList.LessThan", "break", "seekColumnOffset: returns one column late", "\t\tif i == u {\n\t\t\treturn\n\t\t}\n\t\toff += n\n", "\t\toff += n\n\t\tif i == u {\n\t\t\treturn\n\t\t}\n"),
+ ("iv StrList.LessThan", "break", "seekColumn: one byte short", "\treturn b[off : off+n]\n", "\treturn b[off : off+n-1]\n"),
+ ("iv StrList.LessThan", "break", "LessThan: v == 1 answers true", "\tfor _, u := range columns {\n\t\tif v := bytes.Compare(b.seekColumn(u), c.seekColumn(u)); v == 1 {\n\t\t\treturn false", "\tfor _, u := range columns {\n\t\tif v := bytes.Compare(b.seekColumn(u), c.seekColumn(u)); v == 1 {\n\t\t\treturn true"),
+ ("iv StrList.LessThan", "break", "LessThan: compares c with b", "\tfor _, u := range columns {\n\t\tif v := bytes.Compare(b.seekColumn(u), c.seekColumn(u)); v == 1 {", "\tfor _, u := range columns {\n\t\tif v := bytes.Compare(c.seekColumn(u), b.seekColumn(u)); v == 1 {"),
+ ("iv StrList.LessThan", "keep", "rename variables", "\tfor _, u := range columns {\n\t\tif v := bytes.Compare(b.seekColumn(u), c.seekColumn(u)); v == 1 {\n\t\t\treturn false\n\t\t} else if v == -1 {", "\tfor _, col := range columns {\n\t\tif cmp := bytes.Compare(b.seekColumn(col), c.seekColumn(col)); cmp == 1 {\n\t\t\treturn false\n\t\t} else if cmp == -1 {"),
+ ("iv StrList.LessThan", "keep", "v > 0 / v < 0 instead of == 1 / == -1", "\tfor _, u := range columns {\n\t\tif v := bytes.Compare(b.seekColumn(u), c.seekColumn(u)); v == 1 {\n\t\t\treturn false\n\t\t} else if v == -1 {", "\tfor _, u := range columns {\n\t\tif v := bytes.Compare(b.seekColumn(u), c.seekColumn(u)); v > 0 {\n\t\t\treturn false\n\t\t} else if v < 0 {"),
+ ("iv StrList.LessThan", "keep", "seekColumn: named temporaries", "\toff, n := b.seekColumnOffset(u)\n\treturn b[off : off+n]\n", "\tstart, size := b.seekColumnOffset(u)\n\treturn b[start : start+size]\n"),
+ ("vi BlockIndex.Get", "break", "predicate > instead of >=", "\t\treturn string(b) >= string(pkSum)\n", "\t\treturn string(b) > string(pkSum)\n"),
+ ("vi BlockIndex.Get", "break", "bound check i > n", "\tif i >= n {\n\t\treturn 0, nil\n\t}\n\tj := idx.sortedOff[byte(i)]", "\tif i > n {\n\t\treturn 0, nil\n\t}\n\tj := idx.sortedOff[byte(i)]"),
+ ("vi BlockIndex.Get", "break", "returns the search position, not the row offset", "\t\treturn j, b[16:]\n", "\t\treturn byte(i), b[16:]\n"),
+ ("vi BlockIndex.Get", "break", "searches Rows in storage order", "\t\tb := idx.Rows[idx.sortedOff[byte(i)]][:16]\n", "\t\tb := idx.Rows[byte(i)][:16]\n"),
+ ("vi BlockIndex.Get", "keep", "rename variables", None, [("\tj := idx.sortedOff[byte(i)]\n\tb := idx.Rows[j]\n\tif bytes.Equal(b[:16], pkSum) {\n\t\treturn j, b[16:]\n", "\toff := idx.sortedOff[byte(i)]\n\trow := idx.Rows[off]\n\tif bytes.Equal(row[:16], pkSum) {\n\t\treturn off, row[16:]\n")]),
+ ("vi BlockIndex.Get", "keep", "sort.Search(n, ..) instead of idx.Len()", "\ti := sort.Search(idx.Len(), func(i int) bool {", "\ti := sort.Search(n, func(i int) bool {"),
+ ("vi BlockIndex.Get", "keep", "closure parameter renamed", "\ti := sort.Search(idx.Len(), func(i int) bool {\n\t\tb := idx.Rows[idx.sortedOff[byte(i)]][:16]\n\t\treturn string(b) >= string(pkSum)", "\ti := sort.Search(idx.Len(), func(p int) bool {\n\t\tsum := idx.Rows[idx.sortedOff[byte(p)]][:16]\n\t\treturn string(sum) >= string(pkSum)"),
+ ("vii addToFanoutTable", "break", "loop starts at b+1", "\t\tfor k := b; ; k++ {\n\t\t\tfanout[k] += u", "\t\tfor k := b + 1; ; k++ {\n\t\t\tfanout[k] += u"),
+ ("vii addToFanoutTable", "break", "stops before 255", "\t\t\tif k == 255 {\n\t\t\t\tbreak", "\t\t\tif k == 254 {\n\t\t\t\tbreak"),
+ ("vii addToFanoutTable", "break", "counts the second byte", "\t\tm[b[0]]++\n", "\t\tm[b[1]]++\n"),
+ ("vii addToFanoutTable", "break", "adds the count twice", "\t\t\tfanout[k] += u\n", "\t\t\tfanout[k] += u + u\n"),
+ ("vii addToFanoutTable", "keep", "rename variables", None, [("\tm := map[byte]uint32{}\n\tfor _, b := range hashes {\n\t\tm[b[0]]++\n\t}\n\tfor b, u := range m {", "\tcounts := map[byte]uint32{}\n\tfor _, sum := range hashes {\n\t\tcounts[sum[0]]++\n\t}\n\tfor b, u := range counts {")]),
+ ("vii addToFanoutTable", "keep", "m[b[0]] += 1", "\t\tm[b[0]]++\n", "\t\tm[b[0]] += 1\n"),
+ ("vii addToFanoutTable", "keep", "fanout[k] = fanout[k] + u", "\t\t\tfanout[k] += u\n", "\t\t\tfanout[k] = fanout[k] + u\n"),
 ]
 def sh(cmd, cwd=None, timeout=900):
     t0 = time.time()
